@@ -74,7 +74,9 @@ Definition option_eqb {A} (eqb : A -> A -> bool) (a b : option A) : bool :=
   match a, b with Some x, Some y => eqb x y | None, None => true | _, _ => false end.
 
 (* verdict of one correspondence case: k = index of the first differing / failing observation *)
-Inductive verdict := Agree | Disagree (k : N) | PropFail (k : N).
+(* KnownFail c k: the property fails on the implementation's observations at k, and the failing case
+   belongs to the known-finding class number c (known_findings.json) *)
+Inductive verdict := Agree | Disagree (k : N) | PropFail (k : N) | KnownFail (c k : N).
 Inductive tag := Tag (n : N).
 
 Definition pair_eqb {A B} (ea : A -> A -> bool) (eb : B -> B -> bool) (x y : A * B) : bool :=
